@@ -35,11 +35,26 @@ CLAIM = dict(
     "its result after only the parameter-setting part of the history (`stateless`), and equals its result in a fresh process "
     "for every operation that uses no user solver object (`stateless_self_contained`); caches are never read "
     "(`call_reads_no_cache`); MG leaves its coefficients as it found them; with negations for the code before the two fixes. "
-    "The model abstracts the floating-point arithmetic (a call returns the record of everything it reads); it is tied to "
-    "the implementation by equal/unequal predictions on all generated sequences and by recomputing Jacobi solves from the "
-    "record. The deciding observation is bit-for-bit equality with fresh processes over all sequences of the tier.",
+    "`regulariser_stateless`: H1 / split-Bregman with ANY solver are independent of the whole history and of the solver object's own "
+    "dim / mass_coeff / diffusion_coeff. A call returns the record of everything it reads; DarsiaModel.SolverArith evaluates the "
+    "ARITHMETIC of Jacobi (diagonal, sweeps with ghost neighbours), of the MG V-cycle (darsia.laplace, restriction, prolongation, edge "
+    "padding, heterogeneous coefficients) and of H1_regularization over Q from that record, so the theorems transfer to results "
+    "(`stateless_results`, `self_contained_results`, `h1_result_stateless`). READING of 'coefficients set for it': the public parameters "
+    "(dim, mass_coeff, diffusion_coeff) of a USER's solver object are visible state; whoever calls update_params on it - the user, or a "
+    "regulariser the user handed it to - sets them for later bare solver calls (`stateless` is relative to that parameter-setting part of "
+    "the history, and the oracle's fresh-process reference replays exactly that part); regularisers themselves overwrite all three and are "
+    "independent of everything. Near-definitional parts (with the diagonal recomputed per call, Jacobi/Anderson-from-0/first-solve-sets-up are "
+    "stateless by construction): the content is in MG coefficient restoration, the default instances, the parameter-forgetting normal form "
+    "and in the TIE: every call of every sequence is observed through instrumented live objects (Jacobi._diag/__call__, MG.operator, "
+    "update_params, Anderson reset/columns, linear_solve set-up vs re-use incl. the initial Darcy and final pressure solves) and its event "
+    "trace is compared token by token with the model's record; plus equal/unequal predictions on all generated sequences, "
+    "and the model's rational results of every Jacobi / MG / H1 call against the implementation's floats (exact where all diagonals are "
+    "powers of two, within 1e-12 otherwise; split-Bregman, Anderson and distance arithmetic are NOT modelled - records only). The deciding "
+    "observation is bit-for-bit equality with fresh processes over all sequences of the tier.",
     note="Arithmetic of numpy/scipy/numba/pyamg is outside the model; determinism of those libraries across processes is assumed "
-    "(and observed: zero mismatches on the fixed tree). tvd's skimage methods are covered by the oracle only.",
+    "(and observed: zero mismatches on the fixed tree). tvd's skimage methods are covered by the oracle only. All solver objects use tol=None "
+    "(the tolerance branches of Jacobi and MG are not exercised); reduced matrices, amg_residual_history and the distance object's own Anderson "
+    "acceleration are not in the model (oracle only).",
     technique="Lean 4 proof (cache-forgetting normal form commutes with every operation; induction over histories) + "
     "differential correspondence + fresh-process oracle",
 )
@@ -47,7 +62,7 @@ CLAIM = dict(
 # ---------------------------------------------------------------------------
 # deterministic data, objects, operations (JSON-able descriptions)
 
-SHAPES = {0: (8, 8), 1: (8, 8), 2: (6, 10), 3: (8, 8, 3), 4: (8, 8)}
+SHAPES = {0: (8, 8), 1: (8, 8), 2: (6, 10), 3: (8, 8, 3), 4: (8, 8), 5: (4, 4, 4)}
 
 
 def data(k):
@@ -61,8 +76,10 @@ def coef_array(k):
 
 
 OBJECTS = {
-    "jacs": [dict(maxiter=3, tol=None, dim=2, mass=1.0, diff=1.0), dict(maxiter=2, tol=None, dim=2, mass=2.0, diff=0.5)],
-    "mgs": [dict(depth=1, sm=2, maxiter=2, dim=2, mass=1.0, diff=1.0), dict(depth=1, sm=2, maxiter=1, dim=2, mass="a0", diff=1.0)],
+    "jacs": [dict(maxiter=3, tol=None, dim=2, mass=1.0, diff=1.0), dict(maxiter=2, tol=None, dim=2, mass=2.0, diff=0.5),
+             dict(maxiter=3, tol=None, dim=2, mass=4.0, diff=1.0)],
+    "mgs": [dict(depth=1, sm=2, maxiter=2, dim=2, mass=1.0, diff=1.0), dict(depth=1, sm=2, maxiter=1, dim=2, mass="a0", diff=1.0),
+            dict(depth=1, sm=2, maxiter=2, dim=2, mass=0.0, diff=2.0)],
     "aas": [dict(depth=2, restart=3), dict(depth=3, restart=None)],
     "ws": [dict(kind=k, solver=sv, formulation=fm) for k in ("newton", "bregman")
            for sv, fm in (("direct", "full"), ("direct", "pressure"), ("amg", "pressure"))],
@@ -73,12 +90,21 @@ def coef_value(c):
     return coef_array(int(c[1:])) if isinstance(c, str) else c
 
 
+def variant_coef(c):
+    """another coefficient of the same kind (scalar stays scalar, array stays array)"""
+    return "a2" if isinstance(c, str) else 3.0 * c + 1.0
+
+
 class Objs:
-    def __init__(self, d, with_ws=False):
-        self.jacs = [d.Jacobi(maxiter=o["maxiter"], tol=o["tol"], dim=o["dim"], mass_coeff=coef_value(o["mass"]),
-                              diffusion_coeff=coef_value(o["diff"])) for o in OBJECTS["jacs"]]
-        self.mgs = [d.MG(depth=o["depth"], smoother_iterations=o["sm"], maxiter=o["maxiter"], dim=o["dim"],
-                         mass_coeff=coef_value(o["mass"]), diffusion_coeff=coef_value(o["diff"])) for o in OBJECTS["mgs"]]
+    def __init__(self, d, with_ws=False, variant=False):
+        """variant: the solver objects are constructed with OTHER values of the parameters that every regulariser overwrites
+        (dim, mass_coeff, diffusion_coeff); maxiter / tol / depth / smoother_iterations and the kind of coefficient are kept"""
+        vc = variant_coef if variant else (lambda c: c)
+        vd = (lambda n: 5 - n) if variant else (lambda n: n)
+        self.jacs = [d.Jacobi(maxiter=o["maxiter"], tol=o["tol"], dim=vd(o["dim"]), mass_coeff=coef_value(vc(o["mass"])),
+                              diffusion_coeff=coef_value(vc(o["diff"]))) for o in OBJECTS["jacs"]]
+        self.mgs = [d.MG(depth=o["depth"], smoother_iterations=o["sm"], maxiter=o["maxiter"], dim=vd(o["dim"]),
+                         mass_coeff=coef_value(vc(o["mass"])), diffusion_coeff=coef_value(vc(o["diff"]))) for o in OBJECTS["mgs"]]
         self.aas = [d.AndersonAcceleration(dimension=None, depth=o["depth"], restart=o["restart"]) for o in OBJECTS["aas"]]
         self._d = d
         self._ws = {}
@@ -124,7 +150,7 @@ def execute(d, objs, op):
     if k in ("h1", "sb") and op["solver"] != "d":
         kw["solver"] = objs.jacs[op["solver"][1]] if op["solver"][0] == "j" else objs.mgs[op["solver"][1]]
     if k == "h1":
-        return call(d.H1_regularization, data(op["data"]).copy(), mu=coef_value(op["mu"]), omega=coef_value(op["omega"]), dim=2, **kw)
+        return call(d.H1_regularization, data(op["data"]).copy(), mu=coef_value(op["mu"]), omega=coef_value(op["omega"]), dim=op.get("dim", 2), **kw)
     if k == "sb":
         return call(d.split_bregman_tvd, data(op["data"]).copy(), mu=coef_value(op["mu"]), omega=coef_value(op["omega"]), ell=coef_value(op.get("ell")), dim=2,
                     max_num_iter=op["iters"], isotropic=op.get("isotropic", False), **kw)
@@ -157,7 +183,7 @@ def setting_part(op):
         return [op]
     if k in ("h1", "sb") and op["solver"] != "d":
         diff = op["mu"] if k == "h1" else (op["ell"] if op.get("ell") is not None else 2 * op["mu"])
-        return [{"op": "ju" if op["solver"][0] == "j" else "mu", "i": op["solver"][1], "dim": 2, "mass": op["omega"], "diff": diff}]
+        return [{"op": "ju" if op["solver"][0] == "j" else "mu", "i": op["solver"][1], "dim": op.get("dim", 2), "mass": op["omega"], "diff": diff}]
     return []
 
 
@@ -171,18 +197,136 @@ def digest(r):
 
 
 def needs_ws(ops):
-    return any(o["op"] == "di" for o in ops)
+    return any(o["op"] == "di" for o in (ops["ops"] if isinstance(ops, dict) else ops))
 
 
 def fresh_result(ops):
     """executed inside a fresh process: settings + the call, on freshly built objects; digest of the last result"""
     import darsia as d
 
-    objs = Objs(d, with_ws=needs_ws(ops))
+    variant = False
+    if isinstance(ops, dict):
+        variant, ops = bool(ops.get("variant")), ops["ops"]
+    objs = Objs(d, with_ws=needs_ws(ops), variant=variant)
     r = None
     for op in ops:
         r = execute(d, objs, op)
     return digest(r)
+
+
+# ---------------------------------------------------------------------------
+# instrumentation of the live objects: the read-set / event sequence the model predicts is OBSERVED on the implementation
+
+_TRACE = {"events": [], "installed": False, "depth": 0, "fp": None}
+
+
+def _coef_fingerprints():
+    """coefficient arrays and their restrictions (MG.restriction with dim = 2), by content"""
+    if _TRACE["fp"] is None:
+        fp = {}
+        for k in range(3):
+            a = coef_array(k)
+            for n in range(4):
+                fp[(a.shape, a.tobytes())] = f"a{k}R{n}"
+                if min(a.shape) < 2:
+                    break
+                for ax in range(2):
+                    a = (np.take(a, np.arange(0, a.shape[ax] - 1, 2), axis=ax) + np.take(a, np.arange(1, a.shape[ax], 2), axis=ax)) / 2
+        _TRACE["fp"] = fp
+    return _TRACE["fp"]
+
+
+def _ctok(c):
+    if c is None:
+        return "None"
+    if isinstance(c, np.ndarray):
+        return _coef_fingerprints().get((c.shape, np.ascontiguousarray(c).tobytes()), "a?")
+    return fr(float(c))
+
+
+def _otok(c):
+    return "-" if c is None else (str(c) if isinstance(c, (int, np.integer)) and not isinstance(c, bool) else _ctok(c))
+
+
+def install_tracer(d):
+    """wrap (once per process) the methods through which hidden state could be read or written; behaviour is unchanged"""
+    if _TRACE["installed"]:
+        return
+    _TRACE["installed"] = True
+    ev = _TRACE["events"]
+    import darsia.measure.wasserstein as W
+
+    J, MGc, S, AA, VW = d.Jacobi, d.MG, d.Solver, d.AndersonAcceleration, W.VariationalWassersteinDistance
+    o_diag, o_jcall, o_op, o_supd, o_mupd, o_areset, o_acall, o_ls = J._diag, J.__call__, MGc.operator, S.update_params, MGc.update_params, AA.reset, AA.__call__, VW.linear_solve
+
+    def diag(self, h=1):
+        ev.append(("D", f"{self.dim},{_ctok(self.mass_coeff)},{_ctok(self.diffusion_coeff)},{fr(float(h))}"))
+        return o_diag(self, h)
+
+    def jcall(self, x0, rhs, h=1.0):
+        n0 = len(ev)
+        r = o_jcall(self, x0, rhs, h)
+        ds = [e for e in ev[n0:] if e[0] == "D"]
+        del ev[n0:]
+        ev.append(("T", f"J({self.maxiter};{ds[0][1] if len(ds) == 1 else 'cached' if not ds else 'diag-computed-%d-times' % len(ds)})"))
+        return r
+
+    def operator(self, x, h):
+        ev.append(("T", f"O({self.dim},{_ctok(self.mass_coeff)},{_ctok(self.diffusion_coeff)},{fr(float(h))})"))
+        return o_op(self, x, h)
+
+    def upd(orig):
+        def f(self, dim=None, mass_coeff=None, diffusion_coeff=None):
+            if _TRACE["depth"] == 0:
+                ev.append(("T", f"U({_otok(dim)},{_otok(mass_coeff)},{_otok(diffusion_coeff)})"))
+            _TRACE["depth"] += 1
+            try:
+                return orig(self, dim, mass_coeff, diffusion_coeff)
+            finally:
+                _TRACE["depth"] -= 1
+        return f
+
+    def areset(self):
+        ev.append(("R",))
+        return o_areset(self)
+
+    def acall(self, gk, fk, iteration):
+        n0 = len(ev)
+        r = o_acall(self, gk, fk, iteration)
+        reset = any(e[0] == "R" for e in ev[n0:])
+        del ev[n0:]
+        ev.append(("A", f"A({iteration};{int(reset)};{min(self._inner_iteration, self._depth)})"))
+        return r
+
+    def setup_wrap(orig):
+        def f(self, *a, **k):
+            ev.append(("S",))
+            return orig(self, *a, **k)
+        return f
+
+    def ls(self, *a, **k):
+        n0 = len(ev)
+        r = o_ls(self, *a, **k)
+        setup = any(e[0] == "S" for e in ev[n0:])
+        del ev[n0:]
+        ev.append(("L", "L(S)" if setup else "L(R)"))
+        return r
+
+    J._diag, J.__call__, MGc.operator, AA.reset, AA.__call__, VW.linear_solve = diag, jcall, operator, areset, acall, ls
+    S.update_params, MGc.update_params = upd(o_supd), upd(o_mupd)
+    for n in dir(VW):
+        if n.startswith("setup_") and n.endswith("_solver"):
+            setattr(VW, n, setup_wrap(getattr(VW, n)))
+
+
+def take_trace(op):
+    ev = _TRACE["events"]
+    if op["op"] == "di":
+        toks = [e[1] for e in ev if e[0] == "L"]  # the object's own Anderson acceleration is not part of the model
+    else:
+        toks = [e[1] for e in ev if e[0] in ("T", "A", "L")]
+    del ev[:]
+    return " ".join(toks)
 
 
 def run_chunk(seqs):
@@ -190,10 +334,17 @@ def run_chunk(seqs):
     library's default solver instances shared by the whole chunk); digests of every call"""
     import darsia as d
 
+    install_tracer(d)
     out = []
     for seq in seqs:
         objs = Objs(d, with_ws=needs_ws(seq))
-        out.append([digest(execute(d, objs, op)) for op in seq])
+        del _TRACE["events"][:]
+        row = []
+        for op in seq:
+            r = execute(d, objs, op)
+            vals = np.asarray(r, dtype=float).ravel().tolist() if op["op"] in ("jc", "mc", "h1") and isinstance(r, np.ndarray) else None
+            row.append((digest(r), vals, take_trace(op)))
+        out.append(row)
     return out
 
 
@@ -257,8 +408,9 @@ def op_tok(op, n):
         return f"mc {op['i']} {op['data']}"
     sref = "d" if op.get("solver", "d") == "d" else f"{op['solver'][0]} {op['solver'][1]}"
     if k == "h1":
-        ch = int(np.prod(SHAPES[op["data"]][2:])) if len(SHAPES[op["data"]]) > 2 else 1
-        return f"h1 {sref} {coef_tok(op['mu'])} {coef_tok(op['omega'])} 2 {ch} {op['data']}"
+        dim = op.get("dim", 2)
+        ch = int(np.prod(SHAPES[op["data"]][dim:])) if len(SHAPES[op["data"]]) > dim else 1
+        return f"h1 {sref} {coef_tok(op['mu'])} {coef_tok(op['omega'])} {dim} {ch} {op['data']}"
     if k in ("sb", "tvd"):
         ell = op["ell"] if op.get("ell") is not None else 2 * op["mu"]
         return f"sb {sref} {coef_tok(ell)} {coef_tok(op['omega'])} 2 {op['iters']} {op['data']}"
@@ -273,9 +425,67 @@ def in_model(op):
     return not (op["op"] == "tvd" and op["method"] != "heterogeneous bregman")
 
 
+def model_parallel(ctx, lines, nproc=10):
+    """ctx.model split over several driver processes (the arithmetic of every call is evaluated in exact rationals)"""
+    import tempfile
+    from concurrent.futures import ThreadPoolExecutor
+    from ..lib.core import LEAN
+
+    if len(lines) < 2 * nproc:
+        return ctx.model(lines)
+    with ctx._lock():
+        pass  # wait for a running build
+    chunks = [lines[k::nproc] for k in range(nproc)]
+
+    def one(chunk):
+        with tempfile.NamedTemporaryFile("w", suffix=".txt", delete=False) as f:
+            f.write("\n".join(chunk) + "\n")
+            name = f.name
+        try:
+            with open(name) as fin:
+                p = subprocess.run(["lake", "env", "lean", "--run", "Drivers/C16.lean"], cwd=LEAN, stdin=fin, capture_output=True, text=True, timeout=3000)
+        finally:
+            os.unlink(name)
+        out = [l[2:] for l in p.stdout.splitlines() if l.startswith("> ")]
+        if p.returncode != 0 or len(out) != len(chunk):
+            ctx.mark("TIE-BROKEN", {"driver_exit": p.returncode, "driver_lines": len(out), "expected": len(chunk), "stderr": p.stderr[-1000:]})
+            out = (out + ["!driver-missing"] * len(chunk))[: len(chunk)]
+        return out
+
+    with ThreadPoolExecutor(max_workers=nproc) as ex:
+        res = list(ex.map(one, chunks))
+    got = [None] * len(lines)
+    for k in range(nproc):
+        got[k::nproc] = res[k]
+    return got
+
+
+def arr_tok(a):
+    from ..lib.core import flist
+
+    return f"{flist(a.shape)} {flist(a.ravel().tolist())}"
+
+
 def model_line(seq):
+    """objects, the coefficient arrays (ENV) and the data arrays the sequence uses (DATA, re-numbered), the operations"""
     ops = [o for o in seq if in_model(o)]
-    return f"seq 1 0 {objects_line()} OPS {len(ops)} " + " ".join(op_tok(o, n) for n, o in enumerate(ops))
+    used = sorted({o["data"] for o in ops if "data" in o and o["op"] in ("jc", "mc", "h1")})
+    remap = {k: n for n, k in enumerate(used)}
+    toks = []
+    for n, o in enumerate(ops):
+        o2 = dict(o, data=remap.get(o.get("data"), 0)) if "data" in o else o
+        toks.append(op_tok_data(o, o2, n))
+    env = " ".join(f"{k} {arr_tok(coef_array(k))}" for k in range(3))
+    dat = " ".join(arr_tok(data(k)) for k in used)
+    return f"seq 1 0 {objects_line()} ENV 3 {env} DATA {len(used)} {dat} OPS {len(ops)} " + " ".join(toks)
+
+
+def op_tok_data(o, o2, n):
+    """token of an operation with the re-numbered data id (shape-dependent fields are computed from the original id)"""
+    t = op_tok(o, n).split()
+    if o["op"] in ("jc", "mc", "h1"):
+        t[-1] = str(o2["data"])
+    return " ".join(t)
 
 
 # ---------------------------------------------------------------------------
@@ -287,6 +497,7 @@ GROUPS = {
         dict(op="h1", solver="d", mu=2.0, omega=0.5, data=0),
         dict(op="h1", solver="d", mu=0.5, omega=1.0, data=2),
         dict(op="h1", solver="d", mu=1.0, omega=1.0, data=3),
+        dict(op="h1", solver="d", mu=0.5, omega=1.0, data=5, dim=3),
     ],
     "sb-default": [
         dict(op="sb", solver="d", mu=0.125, omega=1.0, ell=None, iters=3, data=0),
@@ -308,6 +519,7 @@ GROUPS = {
         dict(op="mu", i=0, diff=3.0),
         dict(op="mc", i=0, data=2),
         dict(op="h1", solver=["m", 0], mu=2.0, omega=1.0, data=0),
+        dict(op="h1", solver=["m", 0], mu=2.0, omega=1.0, data=5, dim=3),
     ],
     "mg-heterogeneous": [
         dict(op="mc", i=1, data=1),
@@ -316,6 +528,12 @@ GROUPS = {
         dict(op="h1", solver=["m", 1], mu="a1", omega="a2", data=0),
         dict(op="h1", solver=["m", 1], mu="a2", omega="a0", data=0),
         dict(op="sb", solver=["m", 1], mu=0.25, omega="a1", ell="a2", iters=2, data=1),
+    ],
+    "dyadic-arithmetic": [  # every diagonal is a power of two: the float results equal the model's rationals exactly
+        dict(op="jc", i=2, h=1.0, data=0, exact=True),
+        dict(op="mc", i=2, data=0, exact=True),
+        dict(op="h1", solver="d", mu=1.0, omega=4.0, data=0, exact=True),
+        dict(op="h1", solver=["m", 2], mu=2.0, omega=0.0, data=1, exact=True),
     ],
     "anderson": [
         dict(op="an", i=0, n=5, a=0.5, data=0),
@@ -395,6 +613,8 @@ def signature(op, prev):
     if k == "di":
         o = OBJECTS["ws"][op["i"]]
         via = f"({o['kind']},{o['solver']}/{o['formulation']})"
+    if prev == "solver-constructor-parameters":
+        return f"C16:{who}{via}:depends-on-solver-constructor-parameters"
     return f"C16:{who}{via}:depends-on-earlier-{prev}"
 
 
@@ -453,10 +673,14 @@ def _run(ctx, d, zyg):
     zyg.send(("chunk", chunks))
     chunk_res = zyg.recv()
     results = [None] * len(seqs)
+    values = [None] * len(seqs)
+    traces = [None] * len(seqs)
     before = {}  # sequence index -> indices of the sequences run earlier in the same process
     for c in range(nchunk):
         for pos, (i, r) in enumerate(zip(order[c::nchunk], chunk_res[c])):
-            results[i] = r
+            results[i] = [x[0] for x in r]
+            values[i] = [x[1] for x in r]
+            traces[i] = [x[2] for x in r]
             before[i] = order[c::nchunk][:pos]
     for seq in seqs:
         ctx.count(("seq", json.dumps(seq, sort_keys=True)), nontrivial=len(seq) > 1)
@@ -470,6 +694,13 @@ def _run(ctx, d, zyg):
                 continue
             ref_ops = [s for o in seq[:n] for s in setting_part(o)] + [op]
             keys.setdefault(json.dumps(ref_ops, sort_keys=True), ref_ops)
+    def explicit_regulariser(o):
+        return o["op"] in ("h1", "sb") and o["solver"] != "d"
+
+    for seq in seqs:
+        for op in seq:
+            if explicit_regulariser(op):
+                keys.setdefault("variant:" + json.dumps(op, sort_keys=True), {"variant": True, "ops": [op]})
     klist = list(keys)
     zyg.send(("fresh", [keys[k] for k in klist]))
     ref = dict(zip(klist, zyg.recv()))
@@ -497,6 +728,16 @@ def _run(ctx, d, zyg):
             n_sub_bad += 1
             ref[k] = v  # the real interpreter is the authority
     ctx.cov["fresh_interpreter_subprocesses"] = {"cases": len(sample), "differ_from_forked_fresh_process": n_sub_bad}
+
+    # ---- guard: an operation of the alphabet that raises when issued FIRST in a fresh process tests nothing
+    # (in-sequence and reference would both be the same exception) - report it instead of counting it as passing ----
+    for seq in seqs:
+        if len(seq) == 1 and seq[0]["op"] not in ("ju", "mu"):
+            v = ref.get(json.dumps(seq, sort_keys=True), "")
+            if v.startswith("!") and not seq[0].get("expect_raise"):
+                ctx.fail(signature(seq[0], "call").replace(":depends-on-earlier-call", "") + f":raises-in-a-fresh-process({v[1:]})",
+                         f"the operation raises {v[1:]} when issued first in a fresh process: {json.dumps(seq[0])}",
+                         {"sequence": seq, "call": 0, "in_sequence": results[seqs.index(seq)][0], "fresh_process": "a result (no exception)", "reference_ops": seq})
 
     # ---- oracle: every call of every sequence against its fresh-process reference ----
     n_cmp = 0
@@ -530,23 +771,76 @@ def _run(ctx, d, zyg):
                 ctx.fail(signature(op, prev_class(seq, n)),
                          f"call {n} of the sequence returned {r}; the same call issued first in a fresh process (after the parameter settings only) returns {want}",
                          {"process_prefix": process_prefix(si, op), "sequence": seq, "call": n, "in_sequence": r, "fresh_process": want, "reference_ops": ref_ops})
+            if explicit_regulariser(op):
+                # theorem regulariser_stateless: equal to the call issued first in a fresh process on a solver object that was
+                # constructed with other dim / mass_coeff / diffusion_coeff (all three are overwritten by the call)
+                wantv = ref["variant:" + json.dumps(op, sort_keys=True)]
+                n_cmp += 1
+                if r != wantv and r == want:
+                    ctx.fail(signature(op, "solver-constructor-parameters"),
+                             f"call {n} returned {r}; the same call issued first in a fresh process with a solver object constructed with other dim / mass_coeff / "
+                             f"diffusion_coeff (which the call overwrites) returns {wantv}",
+                             {"sequence": seq, "call": n, "in_sequence": r, "fresh_process": wantv, "reference_ops": {"variant": True, "ops": [op]}})
         impl_eq.append(flags)
     ctx.cov["compared_calls"] = n_cmp
 
     # ---- correspondence with the model: eq/ne predictions and Jacobi records ----
     lines, meta = [], []
-    for seq, flags, res in zip(seqs, impl_eq, results):
-        if any(in_model(o) for o in seq):
+    metavals = []
+    metatraces = []
+    for si2, (seq, flags, res) in enumerate(zip(seqs, impl_eq, results)):
+        if any(in_model(o) for o in seq) and (len(seq) <= 2 or si2 % ctx.pick(1, 3) == 0):
             lines.append(model_line(seq))
             meta.append((seq, [f for o, f in zip(seq, flags) if in_model(o)], [r for o, r in zip(seq, res) if in_model(o)]))
-    got = ctx.model(lines)
+            metavals.append([v for o, v in zip(seq, values[si2]) if in_model(o)])
+            metatraces.append([t for o, t in zip(seq, traces[si2]) if in_model(o)])
+    got = model_parallel(ctx, lines)
     ndiff = 0
     first = None
     njac = 0
-    for (seq, flags, res), g in zip(meta, got):
+    nnum = {"exact": 0, "within_1e-12": 0, "model_not_evaluated": 0}
+    worst = 0.0
+    ntrace = 0
+    trace_bad = None
+    for (seq, flags, res), g, vals, trs in zip(meta, got, metavals, metatraces):
         parts = g.split(" ; ")
+        fields = [p.split(" | ") + ["", ""] for p in parts]
+        nums = [None if f[1].strip() in ("-", "") else f[1] for f in fields]
+        mtraces = [f[2].strip() for f in fields]
+        parts = [f[0] for f in fields]
         mflags = [(p.split() or ["?"])[0] for p in parts]
         ok = mflags == flags
+        # read-sets / events: what the instrumented implementation did, token by token, against the model's record
+        for op, mt, it, r in zip([o for o in seq if in_model(o)], mtraces, trs, res):
+            if r.startswith("!"):
+                continue  # a raising call leaves a partial trace (exception classes are compared by the oracle)
+            ntrace += 1
+            if mt != it:
+                ok = False
+                if trace_bad is None:
+                    trace_bad = {"op": op, "model_trace": mt[:600], "observed_trace": it[:600]}
+        # arithmetic: the model's rational result of Jacobi / MG / H1 calls against the implementation's floats
+        for op, num, v in zip([o for o in seq if in_model(o)], nums, vals):
+            if v is None or num is None:
+                continue
+            if num.strip() == "!":
+                nnum["model_not_evaluated"] += 1
+                ok = ok and not op.get("exact")
+                continue
+            m = [Fraction(t) for t in num.split()]
+            if len(m) != len(v):
+                ok = False
+                continue
+            if all(Fraction(a) == b for a, b in zip(v, m)):
+                nnum["exact"] += 1
+                continue
+            scale = max(1.0, max(abs(a) for a in v))
+            err = max(abs(a - float(b)) for a, b in zip(v, m)) / scale
+            worst = max(worst, err)
+            if op.get("exact") or err > 1e-12:
+                ok = False
+            else:
+                nnum["within_1e-12"] += 1
         # Jacobi records: recompute with a fresh explicit solver holding exactly the parameters the model names
         mops = [o for o in seq if in_model(o)]
         if ok:
@@ -565,14 +859,17 @@ def _run(ctx, d, zyg):
             ndiff += 1
             if first is None or len(seq) < len(first[0]):
                 first = (seq, flags, g)
-    ctx.cov.setdefault("correspondence", {})["stateful-sequences"] = {"cases": len(lines), "disagreements": ndiff, "jacobi_records_recomputed": njac}
+    ctx.cov.setdefault("correspondence", {})["stateful-sequences"] = {"cases": len(lines), "disagreements": ndiff, "jacobi_records_recomputed": njac,
+                                                                       "arithmetic_results_compared": nnum, "max_relative_float_error": worst,
+                                                                       "event_traces_compared": ntrace}
     if lines:
         ctx.sample({"corr": "stateful-sequences", "request": lines[-1][:300], "model": got[-1][:200], "impl": " ".join(meta[-1][1])})
     if ndiff:
-        ctx.mark("CORR-BROKEN", {"correspondence": "stateful-sequences", "sequence": first[0], "impl_equal_to_fresh": first[1], "model": first[2], "n_diffs": ndiff})
+        ctx.mark("CORR-BROKEN", {"correspondence": "stateful-sequences", "sequence": first[0], "impl_equal_to_fresh": first[1], "model": first[2][:1500], "n_diffs": ndiff,
+                                 "first_trace_difference": trace_bad})
         ctx.log(f"correspondence stateful-sequences: {ndiff} disagreements, e.g. {json.dumps(first[0])[:300]} impl={first[1]} model={first[2][:200]}")
 
-    ctx.cov["rule"] = ("sequences: quick = all of length <= 2 over the 28-operation alphabet + 1500 sampled triples + all of length <= 3 inside each group; thorough = all of "
+    ctx.cov["rule"] = ("sequences: quick = all of length <= 2 over the 34-operation alphabet + 1500 sampled triples + all of length <= 3 inside each group; thorough = all of "
                        "length <= 3 over the alphabet without split-Bregman calls + 2500 sampled triples with one such call + all of length <= 4 inside each "
                        "group sharing an object (default H1 solver, default split-Bregman solver, one Jacobi object, MG objects, Anderson objects); "
                        "both tiers: six distance objects (Newton/Bregman x direct-full/direct-pressure/amg-pressure) on 2 (quick) / 3 (thorough) successive pairs; EVERY call of every sequence is compared with "
